@@ -522,7 +522,9 @@ func GenCase(r *driver.Rng, opt Options) (*desc.Case, *Meta) {
 		file.Name = []string{"api/v1/x.proto", "sub/x.proto", "x.v1.proto", "api/x_y.proto"}[r.Intn(4)]
 	}
 	if r.P(40) {
-		pc := []string{" This package holds the messages of the service\n", " Messages.\n second line of the package comment\n", " types\n"}[r.Intn(3)]
+		// (the last form ends a comment line with the very text of the package clause)
+		pc := []string{" This package holds the messages of the service\n", " Messages.\n second line of the package comment\n", " types\n",
+			" Declarations of the\n package " + pkg + "\n"}[r.Intn(4)]
 		file.PackageComment = &pc
 	}
 	file.Enums = []desc.Enum{{Name: "EnumOne", Values: []int32{0, 1, 2, -1, 2147483647}}, {Name: "EnumTwo", Values: []int32{0, 5}}}
